@@ -6,6 +6,7 @@ package main
 import (
 	"context"
 	"fmt"
+	"github.com/libsv/go-bk/crypto"
 	"math/big"
 	"strings"
 	"time"
@@ -512,7 +513,11 @@ func genSignedCases(r *common.Rand, n int) {
 		for i := 0; i < nin; i++ {
 			in := feegen.In(r, uint64(1000+r.Intn(100000)))
 			in.Prev = common.Hex(*lock)
-			if r.Chance(15) {
+			if r.Chance(20) {
+				// an output of an old wallet: paid to the hash of the key's 65-byte uncompressed form (whatever the
+				// unlocker then puts into the script, it is what the estimate has to cover)
+				in.Prev = common.Hex(feegen.P2PKH(crypto.Hash160(pub.SerialiseUncompressed())))
+			} else if r.Chance(15) {
 				in.Prev = common.Hex(feegen.Inscription((*lock)[3:23], []byte("text/plain"), r.Bytes(r.Intn(30))))
 			}
 			s.Ins = append(s.Ins, in)
